@@ -41,12 +41,13 @@ VARIABLES
   shared,     \* device address |-> [va, len, dir, table, image]
   \* ---- device-private
   devNext,    \* next available-ring index the device will take
-  devHeld     \* heads taken and not yet completed
+  devHeld,    \* heads taken and not yet completed
+  wrote       \* id |-> digest of the device-writable bytes when the device completed the chain
 
 drvVars  == <<availIdx, lastUsed, lastChecked, held, op>>
 dmemVars == <<desc, ring, idxMem, availFlags, usedEvent>>
 vmemVars == <<usedRing, usedIdx, usedFlags, availEvent>>
-devVars  == <<devNext, devHeld>>
+devVars  == <<devNext, devHeld, wrote>>
 vars     == <<cfg, drvVars, dmemVars, vmemVars, shared, devVars>>
 
 -----------------------------------------------------------------------------
@@ -145,7 +146,17 @@ Init0(c) ==
   /\ desc = <<>> /\ ring = <<>> /\ idxMem = 0 /\ availFlags = 0 /\ usedEvent = 0
   /\ usedRing = <<>> /\ usedIdx = 0 /\ usedFlags = 0 /\ availEvent = 0
   /\ shared = <<>>
-  /\ devNext = 0 /\ devHeld = {}
+  /\ devNext = 0 /\ devHeld = {} /\ wrote = <<>>
+
+\* the same as an action (a new queue starts inside a concatenated trace)
+ResetTo(c) ==
+  /\ cfg' = c
+  /\ availIdx' = 0 /\ lastUsed' = 0 /\ lastChecked' = 0
+  /\ held' = <<>> /\ op' = NoOp
+  /\ desc' = <<>> /\ ring' = <<>> /\ idxMem' = 0 /\ availFlags' = 0 /\ usedEvent' = 0
+  /\ usedRing' = <<>> /\ usedIdx' = 0 /\ usedFlags' = 0 /\ availEvent' = 0
+  /\ shared' = <<>>
+  /\ devNext' = 0 /\ devHeld' = {} /\ wrote' = <<>>
 
 -----------------------------------------------------------------------------
 (*                              add                                        *)
@@ -157,14 +168,15 @@ Refusal(bufs) ==
   ELSE IF FreeCount = 0 \/ needed > N \/ (~cfg.indirect /\ needed > FreeCount)
        THEN "QueueFull" ELSE "none"
 
-AddCall(bufs) ==
+\* outdg: digest of the caller's device-writable buffers at the time of the call
+AddCall(bufs, outdg) ==
   /\ op = NoOp
   /\ \A i \in 1..Len(bufs) : bufs[i].len > 0 /\ bufs[i].dir \in {"ToDevice", "FromDevice"}
-  /\ \A i, j \in 1..Len(bufs) : (i < j /\ bufs[i].dir = "FromDevice") => bufs[j].dir = "FromDevice"
+  /\ \A i \in 1..Len(bufs)-1 : bufs[i].dir = "FromDevice" => bufs[i+1].dir = "FromDevice"
   /\ op' = IF Refusal(bufs) # "none"
            THEN [kind |-> "addfail", err |-> Refusal(bufs)]
            ELSE [kind |-> "add", bufs |-> bufs, shares |-> <<>>, table |-> NoTable,
-                 fenced |-> FALSE, pub |-> FALSE, head |-> 0, descs |-> {}]
+                 fenced |-> FALSE, pub |-> FALSE, head |-> 0, descs |-> {}, outdg |-> outdg]
   /\ UNCHANGED <<cfg, availIdx, lastUsed, lastChecked, held, dmemVars, vmemVars, shared, devVars>>
 
 \* C04: one share per caller buffer, true range, direction matching its role, never Both,
@@ -248,6 +260,7 @@ AddRetOk(token) ==
   /\ op.kind = "add" /\ op.pub
   /\ token = op.head
   /\ held' = (token :> [descs |-> op.descs, elems |-> SubmissionElems, bufs |-> op.bufs,
+                        outdg |-> op.outdg,
                         pas |-> { op.shares[pos].pa : pos \in DOMAIN op.shares }
                                 \cup (IF op.table = NoTable THEN {} ELSE {op.table.pa})]) @@ held
   /\ op' = NoOp
@@ -265,13 +278,16 @@ PopOutcome(token) ==
   IF lastUsed = usedIdx THEN "NotReady"
   ELSE IF UsedAt(lastUsed % N).id # token THEN "WrongToken" ELSE "Ok"
 
-PopCall(token) ==
+\* outdg: digest of the caller's device-writable buffers at the time of the call
+PopCall(token, outdg) ==
   /\ op = NoOp
   /\ LET o == PopOutcome(token) IN
      IF o = "Ok"
      THEN /\ token \in DOMAIN held          \* caller discipline: only tokens it holds
+          /\ outdg = held[token].outdg      \* C04: nothing appears before the completion is consumed
           /\ op' = [kind |-> "pop", token |-> token, len |-> UsedAt(lastUsed % N).len,
-                    pas |-> held[token].pas, descs |-> held[token].descs]
+                    pas |-> held[token].pas, descs |-> held[token].descs,
+                    wd |-> IF token \in DOMAIN wrote THEN wrote[token] ELSE outdg]
           /\ held' = [t \in DOMAIN held \ {token} |-> held[t]]
      ELSE /\ op' = [kind |-> "popfail", err |-> o]
           /\ UNCHANGED held
@@ -291,9 +307,10 @@ StoreUsedEvent(v) ==
   /\ usedEvent' = v
   /\ UNCHANGED <<cfg, drvVars, desc, ring, idxMem, availFlags, vmemVars, shared, devVars>>
 
-PopRetOk(len) ==
+PopRetOk(len, outdg) ==
   /\ op.kind = "pop"
   /\ len = op.len
+  /\ outdg = op.wd                                  \* C04: exactly the bytes the device wrote
   /\ op.pas \cap DOMAIN shared = {}                 \* everything of this chain unshared
   /\ cfg.eventIdx => usedEvent = Inc(lastUsed)      \* C05: re-armed for the next completion
   /\ lastUsed' = Inc(lastUsed)
@@ -352,15 +369,20 @@ DevTake(h) ==
   /\ h = RingAt(devNext % N)
   /\ devHeld' = devHeld \cup {h}
   /\ devNext' = Inc(devNext)
-  /\ UNCHANGED <<cfg, drvVars, dmemVars, vmemVars, shared>>
+  /\ UNCHANGED <<cfg, drvVars, dmemVars, vmemVars, shared, wrote>>
 
 DevUsedElem(s, id, len) ==
   /\ usedRing' = (s :> [id |-> id, len |-> len]) @@ usedRing
   /\ UNCHANGED <<cfg, drvVars, dmemVars, usedIdx, usedFlags, availEvent, shared, devVars>>
-DevUsedIdx(v, id) ==
+DevUsedIdx(v, id, wd) ==
   /\ usedIdx' = v
   /\ devHeld' = devHeld \ {id}
+  /\ wrote' = (id :> wd) @@ wrote
   /\ UNCHANGED <<cfg, drvVars, dmemVars, usedRing, usedFlags, availEvent, shared, devNext>>
+\* index moved by a misbehaving device (C07): no chain is known to be completed by it
+DevUsedIdxRaw(v) ==
+  /\ usedIdx' = v
+  /\ UNCHANGED <<cfg, drvVars, dmemVars, usedRing, usedFlags, availEvent, shared, devVars>>
 DevAvailEvent(v) ==
   /\ availEvent' = v
   /\ UNCHANGED <<cfg, drvVars, dmemVars, usedRing, usedIdx, usedFlags, shared, devVars>>
